@@ -93,6 +93,85 @@ PROPS["C16"] = {
     "rule": "sequences from default: constant, 1-4 bit lattices, carry alignments, random; all 4^6 (4^8 thorough) sequences on the 2-bit lattice for every K; compared with an unbounded reference MASH",
 }
 
+PROPS["C12"] = {
+    "families": ["cic_dec"],
+    "n_quick": 100000, "n_thorough": 1000000,
+    "clauses_proved": [
+        "emits exactly at calls t with t % R = 0; tick() predicts it (decimate_emit_times, decimate_tick, decimate_tick_iff_some)",
+        "m-th output = wrapI w (boxcar_R^{*N} * x)(mR) for every N, R, w, input list (decimate_eq_fir, decimate_outputs); exact when it fits (decimate_exact_when_fits)",
+        "gain() = (rate+1)^N; gain_log2 upper bound, exact for power-of-two R (gain_eq, gain_ok, gainLog2_bound, gainLog2_exact)",
+        "rate 0 is the identity for every N (decimate_rate0_identity); get_decimate = last output (getDecimate_eq)",
+    ],
+    "clauses_explored": [],
+    "level_text": "Every clause is a theorem generic in the order N, the rate, the width and the input list (integrator wrap-around proved harmless via wrapI being a ring homomorphism).",
+    "level_note": "Model: Cic.decimate/gain/gainLog2 (IdspModel/Model/Cic.lean), N = list length. set_rate mid-stream is outside the property. gain() casts `rate as T` (wraps for narrow T): stated in gain_eq_general.",
+    "rule": "orders 0..=6, rates 0..=64 and powers of two, i8..i128, small and integrator-wrapping inputs; FIR reference computed modulo 2^128",
+}
+PROPS["C13"] = {
+    "families": ["cic_int"],
+    "n_quick": 100000, "n_thorough": 1000000,
+    "clauses_proved": [
+        "under the tick contract the run never hits the debug_assert / index underflow; tick true exactly every R calls (interpolate_contract_never_panics, interpolate_tick_period)",
+        "every output = exact FIR (boxcar^N) of the held input whenever the checked run returns (interpolate_eq_fir, interpolate_eq_fir_sum); converse sufficient condition (interpolate_ok_of_fits)",
+        "get_interpolate = last returned output (getInterpolate_eq_last)",
+        "constant input: x*step response, settled = x*(rate+1)^N from response_length on, monotone between levels (interpolate_constant, interpolate_constant_settled, interpolate_level_change, stepResp_shape)",
+        "settle_interpolate(x) is a fixed point with outputs x*gain and equals the state reached from new() after N+1 periods (settle_fixed_point, settle_fixed_point_gain, settle_eq_run_from_zero, run_from_zero_settles)",
+        "contract violations panic in a checked build (interpolate_some_off_tick_checked_panics, interpolate_none_on_tick_checked_panics)",
+    ],
+    "clauses_explored": [],
+    "level_text": "Every clause is a theorem generic in N, rate, width and the low-rate sequence; 'as long as no intermediate value overflows' is the hypothesis that the checked model run returns ok.",
+    "level_note": "Model: Cic.interpolate/settleInterpolate (IdspModel/Model/Cic.lean). Release-mode behaviour under overflow is not claimed by the property and not proved.",
+    "rule": "orders 0..=5, rates 0..=32, i32/i64/i128, arbitrary low-rate sequences sized to avoid overflow; contract violations in the correspondence stream",
+}
+PROPS["C05"] = {
+    "families": ["num"],
+    "n_quick": 200000, "n_thorough": 2000000,
+    "clauses_proved": [
+        "macc = (clamp(floor(T/ONE)), T mod ONE), remainder in [0, ONE), floor*ONE + rem = T, parametric in (w, q) and for the four instances (macc_exact, macc_exact_instances); release wrap form (macc_release_wrap); checked overflow panics exactly when T does not fit (macc_checked_overflow); arbitrary e1 is a genuine bitwise or (macc_any_e1)",
+        "mul_scaled = floor((a*b + ONE/2)/ONE) (mul_scaled_exact), x*ONE = x (mul_scaled_one), div_scaled = truncated quotient, b = 0 panics (div_scaled_exact)",
+        "-2 exactly representable (neg_two_representable); clip (clip_spec)",
+    ],
+    "clauses_explored": [
+        "quantize(real) gives the nearest coefficient (float multiply + round: not modelled; sampled natively for i16/i32)",
+    ],
+    "level_text": "The integer clauses are theorems parametric in the width and the number of fractional bits (bit-level offset split proved equal to u*ONE + e1); the float->fixed quantize clause is explored only.",
+    "level_note": "Model: macc, mulScaled, divScaled, clip (IdspModel/Model/Num.lean). Not modelled: quantize (f32/f64 multiply and round), the float Coefficient impls.",
+    "rule": "i8 macc: the complete (u, s) plane x limit pairs x e1 lattice (complete e1 range in thorough); i8 mul/div all pairs; wider types lattice + random",
+}
+PROPS["C03"] = {
+    "families": ["biquad", "num"],
+    "n_quick": 150000, "n_thorough": 1500000,
+    "clauses_proved": [
+        "N = 4, 5: y0 = clamp(floor(T/ONE)), state = [x0, x1, y0, y1(, T mod ONE)] when every partial sum fits (update4_exact, update5_exact); release: only the total must fit (update45_release_exact); checked: whenever it returns it is exact (update45_checked_exact_of_ok); remainder stays in [0, ONE) (update5_remainder_range, run5_remainder_range)",
+        "configuration unchanged (it is an argument of the model, not part of the result)",
+        "IDENTITY returns x0, HOLD returns y1, proportional(k) returns clamp(floor(k*x0/ONE)) (identity_returns_x0, hold_returns_y1, proportional_exact, proportional_exact_of_representable)",
+        "DF2T exact-arithmetic recurrence over any CommRing: clamped recurrence from the third sample on; equals DF1 from rest (df2t_third_output, df2t_run_recurrence, df2t_run_of_df1, df2t_eq_df1_from_rest, df2t_eq_df1_from_rest_zero_offset)",
+        "NEGATION: a partial sum can overflow although the total fits, checked build only (update4_partial_sum_overflow_witness, update4_exact_checked_full_false): known finding F-C03",
+    ],
+    "clauses_explored": [
+        "f32/f64: the same expression to floating-point rounding; DF2T reproduces DF1 from rest for stable filters (native, tolerance scaled by filter gain)",
+    ],
+    "level_text": "Fixed-point clauses are theorems for all four widths; the DF2T clause is a theorem about the exact-arithmetic recurrence over any commutative ring; IEEE rounding is outside the theorems and explored natively.",
+    "level_note": "Model: biquadUpdate4/5/2, biquadAcc (IdspModel/Model/Biquad.lean). The fixed-point DF2T (documented as 'do not use') is tied by correspondence only. Floats are not modelled bit-exactly.",
+    "rule": "all widths, N in {4,5,2}, coefficient styles (arbitrary, integrator, double integrator, identity), fed-back histories, accumulator-overflow cases",
+}
+PROPS["C04"] = {
+    "families": ["biquad"],
+    "n_quick": 150000, "n_thorough": 1500000,
+    "clauses_proved": [
+        "min <= y <= max for N = 4, 5, 2, every state/input/coefficients, every step of every run (update4_in_limits, update5_in_limits, update2_in_limits, update45_in_limits_checked, run_in_limits)",
+        "N = 4: state after two equal outputs under constant input is (x, x, lim, lim), independent of L; continuations identical (state4_after_two, no_windup4, no_windup4_recovery); N = 2 likewise (state2_after_two, no_windup2)",
+        "N = 5: the four stored samples agree; continuation agrees given equal remainder (no_windup5_partial, no_windup5_recovery_partial)",
+        "NEGATION: N = 5 response after saturation depends on L through the carried remainder (no_windup5_full_false): known finding F-C04",
+    ],
+    "clauses_explored": [
+        "f32/f64 limits and bit-identical recovery (native, compared between saturation durations on the implementation)",
+    ],
+    "level_text": "Limit and no-wind-up clauses are theorems for all widths and state forms; the N = 5 literal 'bit-identical' claim is false (proved negation, known finding, <= 1 LSB).",
+    "level_note": "Model: as C03. Floats: explored natively only.",
+    "rule": "integrating and double-integrating filters, all limit pairs on the lattice, saturation durations 2 vs 2+l within the same saturation episode, random continuations",
+}
+
 NOT_APPLICABLE = {
     "C%02d" % i: "check not built yet (work in progress in this session; see DESIGN.md section 5 for the plan)" for i in range(1, 21)
 }
